@@ -391,6 +391,11 @@ def oracle(ctx: Ctx, per: int):
                         alt = rp[:a] + piece + rp[b:]
                         if alt != rp and re.match(rx, alt):
                             misses.append((f"context[{a}:{b}]", f"045 {rverb} --- {cmd.dst.id} {GW} --:------ {code} {len(alt) // 2:03d} {alt}"))
+            if code == "0404" and rp[:2] == "00" and rp[2:4] in ("20", "23"):
+                # the hot-water schedule and zone 00's schedule both carry zone byte 00: the schedule type (23 / 20) tells them apart
+                alt = rp[:2] + ("20" if rp[2:4] == "23" else "23") + rp[4:]
+                if re.match(rx, alt):
+                    misses.append(("context[hot-water-vs-zone-00]", f"045 {rverb} --- {cmd.dst.id} {GW} --:------ {code} {len(alt) // 2:03d} {alt}"))
             for what, ml in misses:
                 try:
                     m = Packet.from_port(D, ml)
